@@ -28,6 +28,7 @@ def run(ctx, log):
                      ("stel a = [1, 2, 3]; a[-4]; 0", "ERR Index"), ("stel s = \"ab\"; s[2]; s[0]; 0", "ERR Index"), ("stel a = [1, 2, 3]; a[2]; a[0]; 5", "OK i5"), ("functie f(a) { a[0]; a[1]; a[9]; 1 } f([1, 2])", "ERR Index"),
                      ("stel a = [1]; als ja { a[3]; 1 } anders { 2 }", "ERR Index"), ("stel a = [[1]]; stel b = a[0]; b[1]; 0", "ERR Index")]:
         far.append((src, exp))
+    progcheck.run_production(ctx, log, [t[1] for t in progcheck.alias_overwrite_family(ctx.quick)] + [t[1] for t in progcheck.text_size_family(True)][:: 6] + [t[1] for t in progcheck.collect_store_collect_family(ctx.quick)], budget=200000)
     fo = vlib.nlh("eval", ["5000 " + vlib.hexs(x) for x, _ in far], tag="c13far")
     for (x, e), o in zip(far, fo):
         ctx.seen(("far-index", x))
